@@ -146,8 +146,8 @@ func runReplay(driver, file string) int {
 		return 2
 	}
 	var rec struct {
-		Seed  int64         `json:"seed"`
-		Trail []nodesim.Op  `json:"trail"`
+		Seed  int64        `json:"seed"`
+		Trail []nodesim.Op `json:"trail"`
 	}
 	if err := json.Unmarshal(b, &rec); err != nil {
 		fmt.Fprintln(os.Stderr, err)
